@@ -11,6 +11,9 @@ def evaluate(e, env):
     if isinstance(e, ast.Attribute):
         key = ast.unparse(e)
         if key in env: return env[key]
+        try: base = evaluate(e.value, env)
+        except Unsupported: raise Unsupported("attribute %s" % key)
+        if isinstance(base, dict) and ("." + e.attr) in base: return base["." + e.attr]      # sample object: {'.attr': value}
         raise Unsupported("attribute %s" % key)
     if isinstance(e, (ast.ListComp, ast.GeneratorExp)):
         out = []
@@ -59,3 +62,56 @@ def evaluate(e, env):
             return getattr(recv, e.func.attr)(*[evaluate(a, env) for a in e.args])      # Python's own str semantics (trusted base)
         if isinstance(e.func, ast.Name) and e.func.id in ("len", "str"): return {"len": len, "str": str}[e.func.id](*[evaluate(a, env) for a in e.args])
     raise Unsupported("expression outside the supported subset : " + ast.unparse(e)[:80])
+
+class Raised(Exception):
+    """the evaluated code raised (class name, message)"""
+    def __init__(s, cls, msg=""): s.cls, s.msg = cls, msg
+class _Return(Exception):
+    def __init__(s, v): s.v = v
+def run_block(stmts, env, max_steps=2000):
+    """interpret a block of simple statements (assignments incl. tuple unpacking, if/elif/else, for over a finite list
+    or dict, return, raise, pass, docstrings) with `evaluate` for the expressions; returns the returned value (None if the
+    block falls off its end).  The environment maps names and dotted attribute chains ('self.x.y') to sample values."""
+    steps = [0]
+    def assign(tg, v):
+        if isinstance(tg, ast.Name): env[tg.id] = v
+        elif isinstance(tg, (ast.Tuple, ast.List)):
+            v = list(v)
+            if len(v) != len(tg.elts): raise Unsupported("unpacking arity")
+            for t, x in zip(tg.elts, v): assign(t, x)
+        elif isinstance(tg, ast.Attribute): env[ast.unparse(tg)] = v
+        else: raise Unsupported("assignment target " + ast.unparse(tg))
+    def block(ss):
+        for s in ss:
+            steps[0] += 1
+            if steps[0] > max_steps: raise Unsupported("too many steps")
+            if isinstance(s, ast.Expr) and isinstance(s.value, ast.Constant): continue
+            if isinstance(s, ast.Pass): continue
+            if isinstance(s, ast.Return): raise _Return(evaluate(s.value, env) if s.value is not None else None)
+            if isinstance(s, ast.Raise):
+                c = s.exc
+                raise Raised(c.func.id if isinstance(c, ast.Call) and isinstance(c.func, ast.Name) else ast.unparse(c) if c is not None else "re-raise")
+            if isinstance(s, ast.Assign):
+                v = evaluate(s.value, env)
+                for tg in s.targets: assign(tg, v)
+                continue
+            if isinstance(s, ast.If):
+                block(s.body if evaluate(s.test, env) else s.orelse); continue
+            if isinstance(s, ast.For):
+                it = evaluate(s.iter, env)
+                broke = False
+                for x in list(it):
+                    assign(s.target, x)
+                    try: block(s.body)
+                    except _Break: broke = True; break
+                    except _Continue: continue
+                if not broke: block(s.orelse)
+                continue
+            if isinstance(s, ast.Break): raise _Break()
+            if isinstance(s, ast.Continue): raise _Continue()
+            raise Unsupported("statement " + type(s).__name__)
+    try: block(stmts)
+    except _Return as r: return r.v
+    return None
+class _Break(Exception): pass
+class _Continue(Exception): pass
